@@ -16,6 +16,7 @@ CLAUSES = {
     "C13.summary.min_inbreeding": 5000, "C13.psdflag": 3000,
     "C13.factory": 2500, "C13.intact": 20000,
     "C13.summary.history": 50000,
+    "C13.factory.history": 10000, "C13.equivariance.ops": 8000,
 }
 RULE = ("seeded class-based genotype matrices: phased (ploidy,n,m) and unphased (n,m) int8 sources of ploidy 1 and 2; n in 1..40 "
         "(plus n=49/98/103 where 1/(ploidy*n) rounds), m in 1..60 (skewed small, m=1 included); contents random / rare alleles / "
@@ -26,7 +27,14 @@ RULE = ("seeded class-based genotype matrices: phased (ploidy,n,m) and unphased 
         "output formats, and (every 4th case) the factory classes.  History family: a live, invertible coancestry object (n 2..8, m > n) is "
         "queried for every view, element-access index form (none, int, slices, Ellipsis, mixed, negative, index arrays) and summary, then 3-7 random steps of reorder_taxa (non-identity) / sort_taxa / group_taxa / "
         "remove_taxa / select_taxa (continuing on the result) / mat assignment (same shape: permuted, scaled+ridge, fresh Gram) / no-op, "
-        "with every view and summary re-judged against the CURRENT mat after each step.  Non-trivial: n >= 2 and m >= 2; distinct = digest of the raw "
+        "with every view and summary re-judged against the CURRENT mat after each step.  Factory family: two long-lived instances of an "
+        "estimator's factory class plus its classmethod receive 3-7 interleaved from_gmat calls with fresh / re-used / re-ordered sources "
+        "of one marker count and per-call optional arguments omitted | None | scalar | vector (keyword or positional); each result is "
+        "judged against the formula for that call's own source and arguments.  Selection family: chains of 3-6 of the coancestry "
+        "object's own select/delete/remove/reorder/sort/group (axis-specific and axis-generic, axis 0/1/-1/-2) with index forms "
+        "array | list | tuple | range | negative | mixed negative | int8..uint16/intp | repeated | boolean mask/list | scalar | slice | "
+        "empty on all four classes: data and labels must follow one index vector, and the result equals the formula on the selected "
+        "genotypes and from_gmat(source.select_taxa(index)).  Non-trivial: n >= 2 and m >= 2; distinct = digest of the raw "
         "allele array, labels and all arguments.")
 ASSUME = [
     "molecular coancestry of an individual with itself draws the two alleles independently (with replacement): homozygote 2, "
@@ -46,6 +54,11 @@ ASSUME = [
     "history clause: the in-place operations themselves are not judged (C03); only that views/summaries describe the current "
     "mat.  append/incorp/insert on square matrices (FIXME-marked, NaN-filled blocks), apply_jitter (global numpy stream) and "
     "element writes into the array returned by .mat are not driven",
+    "selection family: which index forms a method accepts is not judged (a TypeError for a scalar index is counted as raised); "
+    "a boolean sequence handed to select/reorder may be read as a mask or, as numpy.take does, as 0/1 positions - either is "
+    "accepted as long as data and labels follow the same reading; sort/group orders are the library's choice and are identified "
+    "from unique taxon names (not judged when names are absent or duplicated)",
+    "factory family: factory constructors take no arguments in the unchanged API; only from_gmat call sequences are driven",
     "numpy.linalg.eigvalsh / solve and long-double accumulation are correct (trusted base)",
 ]
 TRUSTED = ["pbmon/oracle/relmat.py"]
@@ -632,7 +645,343 @@ def case_history(ctx, c):
             state = STATE_OF[op]
 
 
-FAMILIES = {"rel": (one_case, 10000, 300000), "hist": (case_history, 1500, 40000)}
+# ------------------------------------------------------------------ long-lived factory objects
+def _fac_source(g, m, need):
+    """A fresh genotype source with ``m`` markers; ``need`` in (None, 'any', 'all') = polymorphism the call's domain needs."""
+    for _ in range(6):
+        kname, ploidy, phased = KINDS[int(g.choice(4, p=[0.35, 0.35, 0.15, 0.15]))]
+        n = int(g.integers(3, 11))
+        A = (g.random((ploidy, n, m)) < g.uniform(0.25, 0.75, m)[None, None, :]).astype(numpy.int64)
+        ph = O.sample_freq(O.dosage(A), ploidy)
+        inside = (ph > 0) & (ph < 1)
+        if need is None or (need == "any" and inside.any()) or (need == "all" and inside.all()):
+            break
+    else:
+        A[:, 0, :] = 0; A[:, 1, :] = 1  # two complementary taxa make every marker polymorphic
+    lab = str(g.choice(["named+grp", "named", "none"]))
+    taxa = numpy.array(["f%03d" % i for i in g.permutation(n)], dtype=object) if lab != "none" else None
+    grp = g.integers(0, 3, n).astype("int64") if lab == "named+grp" else None
+    return kname, ploidy, phased, A, taxa, grp
+
+
+def _opt_arg(g, m, kind):
+    """One optional argument: ('omitted'|'none'|'scalar'|'vector', value)."""
+    mode = str(g.choice(["omitted", "none", "scalar", "vector", "vector"]))
+    if mode in ("omitted", "none"):
+        return mode, None
+    if kind == "freq":
+        return mode, (float(g.uniform(0.1, 0.9)) if mode == "scalar" else g.uniform(0.05, 0.95, m))
+    return mode, (float(g.choice([0.5, 2.0, 3.0])) if mode == "scalar" else g.uniform(0.0, 2.0, m) * (g.random(m) < 0.85))
+
+
+def case_factory(ctx, c):
+    """Factory objects (pybrops.popgen.cmat.fcty) kept alive over several from_gmat calls with different genotype matrices
+    (same marker count) and different optional arguments (given, then omitted, explicit None, positional), interleaved
+    with a second instance of the same factory class and with the estimator's classmethod.  Every result must be the
+    formula for THAT call's source and THAT call's arguments; argument arrays and the source must come back unchanged."""
+    g = ctx.rng("fac", c)
+    coords = [c, "fac"]
+    est = str(g.choice(["molecular", "vanraden", "vanraden", "yang", "yang", "gweighted", "gweighted"]))
+    Cls, Fac = classes()[est]
+    m = int(g.integers(2, 26))
+    ncalls = int(g.integers(3, 8))
+    ok, facs = returns(ctx, "%s.__init__" % Fac.__name__, "no arguments", coords, lambda: [Fac(), Fac()])
+    if not ok:
+        return
+    argnames = {"molecular": [], "vanraden": ["p_anc"], "yang": ["p_anc"], "gweighted": ["mkrwt", "afreq"]}[est]
+    prev = "first call"
+    gm = None; hist = []
+    ctx.case("factory history/%s" % est, c, m, ncalls)
+    for call in range(ncalls):
+        modes, kwargs = {}, {}
+        for a in argnames:
+            modes[a], kwargs[a] = _opt_arg(g, m, "weight" if a == "mkrwt" else "freq")
+        fmode = modes.get("p_anc", modes.get("afreq"))
+        need = None if (est in ("molecular", "gweighted") or fmode not in ("omitted", "none")) else ("any" if est == "vanraden" else "all")
+        reuse = gm is not None and g.random() < 0.3
+        if reuse:  # the same source object again (possibly re-ordered in place in between): identity-keyed caches
+            if g.random() < 0.5 and gm.ntaxa >= 2:
+                try:
+                    gm.reorder_taxa(g.permutation(gm.ntaxa))
+                except Exception as e:
+                    ctx.raised("reorder_taxa (workload set-up)", e)
+            raw = numpy.array(gm.mat, copy=True)
+            A = raw.astype(numpy.int64) if phased else O.alleles_from_dosage(raw, ploidy)
+            ph = O.sample_freq(O.dosage(A), ploidy); inside = (ph > 0) & (ph < 1)
+            if (need == "any" and not inside.any()) or (need == "all" and not inside.all()):
+                reuse = False
+        if not reuse:
+            kname, ploidy, phased, A, taxa, grp = _fac_source(g, m, need)
+            gm = make_gmat(A, phased, ploidy, taxa, grp)
+            raw = numpy.array(gm.mat, copy=True)
+        src_taxa = None if gm.taxa is None else gm.taxa.copy()
+        src_grp = None if gm.taxa_grp is None else gm.taxa_grp.copy()
+        route = str(g.choice(["factory A", "factory A", "factory A", "factory B", "classmethod"]))
+        passed = {a: (v.copy() if isinstance(v, numpy.ndarray) else v) for a, v in kwargs.items() if modes[a] != "omitted"}
+        positional = bool(passed) and len(argnames) == 1 and g.random() < 0.3
+        if route == "classmethod":
+            site = "%s.from_gmat" % Cls.__name__; callee = Cls.from_gmat
+        else:
+            site = "%s.from_gmat" % Fac.__name__; callee = facs[0 if route == "factory A" else 1].from_gmat
+        given = [a for a in argnames if modes[a] in ("scalar", "vector")]
+        this = "no optional arguments exist" if not argnames else (
+            "optional arguments left to their defaults" if not given else
+            ("all optional arguments given" if len(given) == len(argnames) else "some optional arguments given"))
+        icls = "%s, %s" % (this, prev)
+        hist.append({"route": route, "n": int(gm.ntaxa), "same source object": bool(reuse), "modes": dict(modes), "positional": positional})
+        wit = {"estimator": est, "calls so far": list(hist), "source_mat": raw, "ploidy": ploidy, "arguments": kwargs}
+        ok, cm = returns(ctx, site, icls, coords,
+                         (lambda: callee(gm, *passed.values())) if positional else (lambda: callee(gm, **passed)), wit)
+        prev = "after a call that gave optional arguments" if given else "after a call without optional arguments"
+        ctx.sumnote("factory calls: %s / %s" % (route, this))
+        if not ok:
+            continue
+        exp, esc = expected(est, kwargs, A, ploidy)
+        good = type(cm) is Cls and isinstance(cm.mat, numpy.ndarray) and cm.mat.shape == exp.shape
+        err = O.maxerr(cm.mat, exp) if good else float("inf")
+        ctx.check("C13.factory.history", err <= O.tol(esc), site, "mat == published formula for this call's source and arguments", icls,
+                  witness=dict(wit, got=cm.mat if good else repr(cm), expected=exp, err=err), coords=coords)
+        ctx.check("C13.factory.history", good and same_labels(cm.taxa, src_taxa) and same_labels(cm.taxa_grp, src_grp), site,
+                  "labels == this call's source labels", icls, witness=dict(wit, got=getattr(cm, "taxa", None), source=src_taxa), coords=coords)
+        same_args = all((numpy.array_equal(passed[a], kwargs[a]) if isinstance(kwargs[a], numpy.ndarray) else passed[a] == kwargs[a])
+                        for a in passed)
+        ctx.check("C13.factory.history", same_args and numpy.array_equal(gm.mat, raw), site,
+                  "argument arrays and source unchanged by the call", icls, witness=wit, coords=coords)
+
+
+# ------------------------------------------------------------------ the matrices' own selection / removal / reordering
+SEL_FORMS = ["index array", "list", "tuple", "range", "negative indices", "mixed negative indices", "narrow integer dtype",
+             "repeated indices", "boolean mask", "boolean list", "integer scalar", "empty"]
+DEL_FORMS = ["python int", "negative int", "numpy integer scalar", "list", "negative indices", "index array", "narrow integer dtype",
+             "slice", "boolean mask", "repeated indices", "empty"]
+ORD_FORMS = ["index array", "list", "negative indices", "mixed negative indices", "narrow integer dtype", "non-permutation index"]
+
+
+def _index_form(g, n, form, for_delete=False):
+    """Index argument of class ``form`` for an axis of length n."""
+    k = int(g.integers(1, n + 1)) if not for_delete else int(g.integers(1, max(2, n - 1)))
+    base = g.permutation(n)[:k].astype(numpy.int64)
+    if form == "index array":
+        return base
+    if form == "list":
+        return base.tolist()
+    if form == "tuple":
+        return tuple(base.tolist())
+    if form == "range":
+        a = int(g.integers(0, n)); return range(a, int(g.integers(a + 1, n + 1)))
+    if form == "negative indices":
+        v = base - n; return v if g.random() < 0.5 else v.tolist()
+    if form == "mixed negative indices":
+        v = base.copy(); neg = g.random(k) < 0.5
+        if not neg.any():
+            neg[int(g.integers(k))] = True
+        v[neg] -= n; return v if g.random() < 0.5 else v.tolist()
+    if form == "narrow integer dtype":
+        dt = str(g.choice(["int8", "int16", "int32", "uint8", "uint16", "intp"]))
+        v = base.copy()
+        if not dt.startswith("u") and g.random() < 0.4:
+            v[g.random(k) < 0.5] -= n
+        return v.astype(dt)
+    if form == "repeated indices":
+        return g.integers(0, max(1, n // 2 + 1), int(g.integers(2, n + 2))).astype(numpy.int64)
+    if form in ("boolean mask", "boolean list"):
+        b = g.random(n) < 0.5
+        return b if form == "boolean mask" else b.tolist()
+    if form in ("integer scalar", "numpy integer scalar"):
+        v = int(g.integers(-n, n)); return [numpy.int64(v), numpy.int32(v), numpy.intp(v)][int(g.integers(0, 3))]
+    if form == "python int":
+        return int(g.integers(0, n))
+    if form == "negative int":
+        return int(g.integers(-n, 0))
+    if form == "slice":
+        a = int(g.integers(0, n)); return slice(a, int(g.integers(a + 1, n + 1)), int(g.choice([1, 1, 2])))
+    if form == "empty":
+        return [] if g.random() < 0.5 else numpy.array([], dtype=numpy.int64)
+    if form == "non-permutation index":
+        return g.integers(0, n, int(g.integers(1, n + 1))).astype(numpy.int64)
+    raise ValueError(form)
+
+
+def _admissible(kind, arg, n):
+    """Index vectors a correct implementation may realise for ``arg`` (a selection may read a boolean sequence either as
+    a mask or, like numpy.take, as 0/1 positions; everything else has one meaning)."""
+    ar = numpy.arange(n)
+    out = []
+    if kind == "delete":
+        try:
+            out.append(numpy.delete(ar, arg))
+        except Exception:
+            pass
+        return out
+    a = numpy.asarray(arg) if not isinstance(arg, (range, slice)) else arg
+    if isinstance(a, numpy.ndarray) and a.size == 0:
+        a = a.astype(numpy.int64)
+    for f in (lambda: numpy.take(ar, a if not isinstance(a, range) else list(a)), lambda: ar[a if not isinstance(a, range) else list(a)]):
+        try:
+            v = numpy.atleast_1d(f())
+            if not any(numpy.array_equal(v, w) for w in out):
+                out.append(v)
+        except Exception:
+            pass
+    return out
+
+
+def case_select(ctx, c):
+    """The coancestry object's own select / delete / remove / reorder / sort / group (axis-specific and axis-generic routes) on
+    every coancestry class, chained, with every index form the methods accept: the data (rows AND columns) and the taxon
+    labels must follow one and the same index vector, the result keeps its class, an out-of-place operation leaves the
+    receiver alone, and (fixed reference frequencies) the result is the formula evaluated on the selected genotypes."""
+    g = ctx.rng("sel", c)
+    coords = [c, "sel"]
+    kname, ploidy, phased = KINDS[int(g.choice(4, p=[0.35, 0.35, 0.15, 0.15]))]
+    n = int(g.integers(4, 15)); m = int(g.integers(2, 21))
+    A = (g.random((ploidy, n, m)) < g.uniform(0.1, 0.9, m)[None, None, :]).astype(numpy.int64)
+    lab = str(g.choice(["named+grp", "named+grp", "named", "grp-only", "none", "dupnames"]))
+    taxa = numpy.array(["s%03d" % i for i in g.permutation(n)], dtype=object) if lab in ("named", "named+grp", "dupnames") else None
+    if lab == "dupnames":
+        taxa[g.integers(0, n, max(1, n // 3))] = "same"
+    grp = g.integers(0, 3, n).astype("int64") if lab in ("named+grp", "grp-only", "dupnames") else None
+    est = str(g.choice(["molecular", "vanraden", "yang", "gweighted"]))
+    fixed = True
+    if est == "molecular":
+        kwargs = {}
+    elif est == "gweighted":
+        kwargs = {"mkrwt": g.uniform(0.0, 2.0, m), "afreq": g.uniform(0.05, 0.95, m)}
+    else:
+        kwargs = {"p_anc": g.uniform(0.05, 0.95, m)}
+    Cls = classes()[est][0]
+    gm = make_gmat(A, phased, ploidy, taxa, grp)
+    nops = int(g.integers(3, 7))
+    ctx.case("selection history/%s/%s/%s" % (est, kname, lab), A, phased, taxa, grp, c)
+    wit = {"estimator": est, "source_mat": numpy.array(gm.mat, copy=True), "ploidy": ploidy, "arguments": kwargs, "history": []}
+    ok, cm = returns(ctx, "%s.from_gmat" % Cls.__name__, "selection set-up", coords, lambda: Cls.from_gmat(gm, **copy_kwargs(kwargs)), wit)
+    if not ok:
+        return
+    rows = numpy.arange(n)  # model: which source taxon each current row is
+    for step in range(nops):
+        G = numpy.array(cm.mat, copy=True); nn = G.shape[0]
+        T = None if cm.taxa is None else cm.taxa.copy()
+        Tg = None if cm.taxa_grp is None else cm.taxa_grp.copy()
+        if nn < 3:
+            break
+        op = str(g.choice(["select", "select", "select", "delete", "remove", "reorder", "sort", "group"]))
+        if step == 0 and g.random() < 0.4:
+            op = "select"
+        generic = g.random() < 0.35
+        axis = int(g.choice([0, 1, -1, -2]))
+        form = None; arg = None
+        if op == "select":
+            form = str(g.choice(SEL_FORMS)); arg = _index_form(g, nn, form)
+            meth = "select" if generic else "select_taxa"
+            call = (lambda: cm.select(arg, axis=axis)) if generic else (lambda: cm.select_taxa(arg))
+            adm = _admissible("select", arg, nn); inplace = False
+        elif op in ("delete", "remove"):
+            form = str(g.choice(DEL_FORMS)); arg = _index_form(g, nn, form, for_delete=True)
+            meth = (op if generic else op + "_taxa")
+            call = (lambda: getattr(cm, meth)(arg, axis=axis)) if generic else (lambda: getattr(cm, meth)(arg))
+            adm = _admissible("delete", arg, nn); inplace = (op == "remove")
+        elif op == "reorder":
+            form = str(g.choice(ORD_FORMS))
+            if form == "non-permutation index":
+                arg = _index_form(g, nn, form)
+            else:
+                arg = _index_form(g, nn, form)
+                full = g.permutation(nn).astype(numpy.int64)   # a genuine permutation in the drawn representation
+                if form in ("negative indices",):
+                    full = full - nn
+                elif form == "mixed negative indices":
+                    full[g.random(nn) < 0.5] -= nn
+                elif form == "narrow integer dtype":
+                    full = full.astype(str(g.choice(["int8", "int32", "uint8"])))
+                arg = full.tolist() if form == "list" else full
+            meth = "reorder" if generic else "reorder_taxa"
+            call = (lambda: cm.reorder(arg, axis=axis)) if generic else (lambda: cm.reorder_taxa(arg))
+            adm = _admissible("select", arg, nn); inplace = True
+        else:
+            form = "library-chosen order"
+            meth = (op if generic else op + "_taxa")
+            call = (lambda: getattr(cm, meth)(axis=axis)) if generic else (lambda: getattr(cm, meth)())
+            inplace = True
+            adm = None
+        site = defsite(cm, meth)
+        w = dict(wit, history=list(wit["history"]), operation=meth, index_form=form, index=arg if not isinstance(arg, (range, slice)) else repr(arg),
+                 mat_before=G, taxa_before=T, taxa_grp_before=Tg)
+        try:
+            res = call()
+        except Exception as e:  # which index forms a method accepts is not this property's subject
+            ctx.raised("%s with %s" % (meth, form), e)
+            wit["history"].append([meth, form, "raised %s" % type(e).__name__])
+            continue
+        out = cm if inplace else res
+        wit["history"].append([meth, form])
+        ctx.sumnote("selection steps: %s with %s" % (op, form))
+        okshape = isinstance(getattr(out, "mat", None), numpy.ndarray) and out.mat.ndim == 2 and out.mat.shape[0] == out.mat.shape[1]
+        ctx.check("C13.equivariance.ops", type(out) is Cls and okshape, site, "result is a square matrix of the receiver's class", form,
+                  witness=dict(w, got=repr(out)), coords=coords)
+        if not (type(out) is Cls and okshape):
+            return
+        if not inplace:
+            ctx.check("C13.equivariance.ops", numpy.array_equal(cm.mat, G) and same_labels(cm.taxa, T) and same_labels(cm.taxa_grp, Tg), site,
+                      "receiver unchanged by an out-of-place operation", form, witness=dict(w, mat_after=cm.mat, taxa_after=cm.taxa), coords=coords)
+        if adm is None:  # sort / group: the order is the library's choice; identify it from unique names
+            if T is None or len(set(T.tolist())) != nn or out.taxa is None or sorted(out.taxa.tolist()) != sorted(T.tolist()):
+                if T is not None and len(set(T.tolist())) == nn:
+                    ctx.check("C13.equivariance.ops", False, site, "labels are a rearrangement of the receiver's labels", form,
+                              witness=dict(w, taxa_after=getattr(out, "taxa", None)), coords=coords)
+                cm = out; rows = None
+                continue
+            pos = {t: i for i, t in enumerate(T.tolist())}
+            adm = [numpy.array([pos[t] for t in out.taxa.tolist()], dtype=numpy.int64)]
+        hit = None
+        for ix in adm:
+            d_ok = out.mat.shape == (len(ix), len(ix)) and numpy.array_equal(out.mat, G[ix][:, ix], equal_nan=True)
+            l_ok = same_labels(out.taxa, None if T is None else T[ix]) and same_labels(out.taxa_grp, None if Tg is None else Tg[ix])
+            if d_ok and l_ok:
+                hit = ix; break
+        if hit is None and adm:
+            ix = adm[0]
+            d_ok = out.mat.shape == (len(ix), len(ix)) and numpy.array_equal(out.mat, G[ix][:, ix], equal_nan=True)
+            l_ok = same_labels(out.taxa, None if T is None else T[ix]) and same_labels(out.taxa_grp, None if Tg is None else Tg[ix])
+            rel = ("neither data nor labels follow the index" if not (d_ok or l_ok) else
+                   ("data (rows and columns) do not follow the index the labels follow" if not d_ok else
+                    "labels do not follow the index the data follow"))
+            ctx.check("C13.equivariance.ops", False, site, rel, form,
+                      witness=dict(w, expected_index=ix, mat_after=out.mat, taxa_after=out.taxa, taxa_grp_after=out.taxa_grp), coords=coords)
+            cm = out; rows = None
+            continue
+        if not adm:
+            ctx.sumnote("selection steps whose index has no numpy meaning but were accepted")
+            cm = out; rows = None
+            continue
+        ctx.ok("C13.equivariance.ops")
+        rows = None if rows is None else rows[hit]
+        if step == 0 and op == "select" and len(hit):
+            # the same index handed to the SOURCE's select_taxa, then the estimator: both orders of the two steps must agree
+            gsite = defsite(gm, "select_taxa")
+            try:
+                gsel = gm.select_taxa(arg)
+            except Exception as e:
+                ctx.raised("genotype matrix select_taxa with %s" % form, e); gsel = None
+            if gsel is not None:
+                ok2, cm2 = returns(ctx, "%s.from_gmat" % Cls.__name__, "sub-selected source", coords,
+                                   lambda: Cls.from_gmat(gsel, **copy_kwargs(kwargs)), w)
+                if ok2:
+                    sc = float(numpy.abs(out.mat).max()) if out.mat.size else 1.0
+                    e2 = O.maxerr(cm2.mat, out.mat)
+                    ctx.check("C13.equivariance.ops", e2 <= O.tol(sc) and same_labels(cm2.taxa, out.taxa) and same_labels(cm2.taxa_grp, out.taxa_grp),
+                              gsite, "from_gmat(source.select_taxa(index)) == from_gmat(source).select_taxa(index)", form,
+                              witness=dict(w, got=cm2.mat, expected=out.mat, taxa_got=cm2.taxa, taxa_expected=out.taxa), coords=coords)
+        cm = out
+        # tie to the definition: the result is the estimator's formula on the selected genotypes (fixed references)
+        if rows is not None and len(rows) and g.random() < 0.5:
+            exp, esc = expected(est, kwargs, A[:, rows, :], ploidy)
+            err = O.maxerr(cm.mat, exp)
+            ctx.check("C13.equivariance.ops", err <= O.tol(esc), site, "result == published formula on the selected genotypes", form,
+                      witness=dict(w, source_rows=rows, got=cm.mat, expected=exp, err=err), coords=coords)
+
+
+FAMILIES = {"rel": (one_case, 10000, 300000), "hist": (case_history, 1500, 40000),
+            "fac": (case_factory, 2000, 60000), "sel": (case_select, 2500, 80000)}
 
 
 def run_shard(ctx):
